@@ -17,7 +17,7 @@ open KV KV.Reader KV.ConnOps
 def brokersV1 : Step := .arr [.int 4, .str, .int 4, .str]                    -- node_id host port rack
 def partitionV1 : List Step := [.err, .int 4, .int 4, .arr [.int 4], .arr [.int 4]]
 def fetchPartitionV4 : List Step :=                                           -- v4..v10 with log_start_offset (v5+)
-  [.int 4, .err, .hwm, .int 8, .int 8, .arr [.int 8, .int 8], .bytes]
+  [.int 4, .err, .hwm, .int 8, .int 8, .abortedTxs, .bytes]     -- aborted_transactions: −1 = null, n ≥ 0 entries of 16 bytes
 
 /-- `layout api version` for the operation names of the driver / Model.ConnSpecs -/
 def layout : String → Nat → Option (List Step)
